@@ -180,9 +180,9 @@ def gen_lines(ctx):
         cases.append((cs, rng.choice(OPTS)))
     # lines around the limits: lim = 3 with 2..4 characters (above), lim = 256 with 255..257
     for n in (255, 256, 257):
-        for base in ([0x61], [0x627], [0x61, 0x627, 0x20], [0x4e2d, 9, 0x628]):
+        for base in ([0x61], [0x61, 0x627, 0x20]) if ctx.quick else ([0x61], [0x627], [0x61, 0x627, 0x20], [0x4e2d, 9, 0x628]):
             cs = (base * n)[:n - 1] + [NL]
-            for opt in ((1, 0, 256), (2, 0, 256), (1, -1, 256), (0, 0, 256)):
+            for opt in ((1, 0, 256), (2, 0, 256), (1, -1, 256)) if ctx.quick else ((1, 0, 256), (2, 0, 256), (1, -1, 256), (0, 0, 256)):
                 cases.append((cs, opt))
     return cases
 
